@@ -347,10 +347,153 @@ fn e2e_project(rep: &mut Report, pname: &str, mods: &[(String, String)], n_token
     classes_out.extend(classes);
 }
 
+/// Programs whose identifier roles are known by construction from Gleam's scoping rules.
+/// Marked identifiers: `«n:x»` module (must be tagged namespace), `«f:x»` function, `«t:X»`
+/// constructor, `«?:x»` may carry any tag or none (declarations, import items, names inside type
+/// annotations, members after `module.`); every other identifier is a local, a label, a keyword
+/// or a type and must carry no token.
+fn role_programs() -> Vec<(String, String)> {
+    let mut out = vec![];
+    for l in ["m", "q"] {
+        let binders: Vec<(&str, String)> = vec![
+            ("parameter", format!("pub fn «?:user»({l}: «?:m».«?:R») {{ {{S}}{{USE}} }}")),
+            ("let", format!("pub fn «?:user»() {{ {{S}}let {l} = «n:m».«?:R»(1) {{USE}} }}")),
+            ("case clause", format!("pub fn «?:user»() {{ {{S}}case «n:m».«?:R»(1) {{ {l} -> {{USE}} }} }}")),
+            ("lambda parameter", format!("pub fn «?:user»() {{ {{S}}let g = fn({l}: «?:m».«?:R») {{ {{USE}} }} «f:g» }}")),
+            ("use binder", format!("pub fn «?:user»() {{ {{S}}use {l} <- «n:m».«?:with» {{USE}} }}")),
+        ];
+        let mut uses: Vec<(&str, String)> = vec![
+            ("field access", format!("{l}.fld")),
+            ("alone", format!("{l}")),
+            ("two field accesses", format!("{l}.fld + {l}.fld")),
+            ("argument of a local function", format!("«f:own»({l})")),
+            ("field access as argument", format!("«f:num»({l}.fld)")),
+        ];
+        if l != "m" {
+            uses.push(("argument of a module function", format!("«n:m».«?:show»({l})")));
+            uses.push(("next to a module constant", format!("{l}.fld + «n:m».«?:c»")));
+        }
+        for (bn, b) in &binders {
+            for (un, u) in &uses {
+                for (sn, st) in [("plain", ""), ("after a multi-byte string", "\"é€😀\" ")] {
+                    let f = b.replace("{S}", st).replace("{USE}", u);
+                    let text = format!("import «?:m»\n/// é😀\n{f}\nfn «?:own»(r: «?:m».«?:R») {{ r.fld }}\nfn «?:num»(n: Int) {{ n }}\n");
+                    out.push((format!("local `{l}`|{bn}|{un}|{sn}"), text));
+                }
+            }
+        }
+    }
+    out
+}
+
+const ROLE_M: &str = "pub type R { R(fld: Int) }\npub const c = 1\npub fn show(r: R) -> Int { r.fld }\npub fn with(cb: fn(R) -> Int) -> Int { cb(R(1)) }\n";
+
+/// (text, marks (start, end, kind))
+fn strip_marks(tpl: &str) -> (String, Vec<(usize, usize, char)>) {
+    let mut text = String::new();
+    let mut marks = vec![];
+    let mut rest = tpl;
+    while let Some(i) = rest.find('«') {
+        text.push_str(&rest[..i]);
+        let after = &rest[i + '«'.len_utf8()..];
+        let j = after.find('»').unwrap();
+        let inner = &after[..j];
+        let kind = inner.chars().next().unwrap();
+        let name = &inner[2..];
+        marks.push((text.len(), text.len() + name.len(), kind));
+        text.push_str(name);
+        rest = &after[j + '»'.len_utf8()..];
+    }
+    text.push_str(rest);
+    (text, marks)
+}
+
+fn eval_role_program(name: &str, tpl: &str) -> Vec<(String, String, String)> {
+    let (text, marks) = strip_marks(tpl);
+    let dir = format!("r{:x}", crate::core::fnv(name));
+    let base = crate::core::verif_root().join(".scratch/c19roles").join(dir);
+    let _ = std::fs::create_dir_all(base.join("src"));
+    let _ = std::fs::write(base.join("gleam.toml"), "name = \"roles\"\n");
+    let _ = std::fs::write(base.join("src/m.gleam"), ROLE_M);
+    let _ = std::fs::write(base.join("src/main.gleam"), &text);
+    let uri = format!("file://{}", base.join("src/main.gleam").display());
+    let mut srv = InProc::new();
+    let _ = srv.open(&uri, &text);
+    let resp = srv.request("textDocument/semanticTokens/full", json!({"textDocument": {"uri": uri}}));
+    let _ = std::fs::remove_dir_all(&base);
+    let mut out = vec![];
+    let data: Vec<u32> = match resp {
+        Ok(Ok(v)) => v["data"].as_array().map(|a| a.iter().filter_map(|x| x.as_u64()).map(|x| x as u32).collect()).unwrap_or_default(),
+        other => return vec![("roles-no-answer".into(), "semanticTokens".into(), format!("{other:?}"))],
+    };
+    let quads: Vec<(u32, u32, u32, u32)> = data.chunks(5).filter(|c| c.len() == 5).map(|c| (c[0], c[1], c[2], c[3])).collect();
+    let Some(dec) = decode_tokens(&quads) else { return vec![("decode-overflow".into(), "roles".into(), "relative encoding overflows".into())] };
+    let doc = RefDoc::new(text.clone());
+    let legend = gv::semantic_token_legend();
+    let kind_name = |k: char| match k {
+        'n' => "namespace",
+        'f' => "function",
+        't' => "type",
+        _ => "",
+    };
+    let mut seen = BTreeSet::new();
+    for t in &dec {
+        let (Some(s), Some(e)) = (doc.offset_of(t.line, t.start), doc.offset_of(t.line, t.start + t.len)) else {
+            out.push(("roles-token-off-grid".into(), "roles".into(), format!("token {t:?} does not lie on character boundaries of its line")));
+            continue;
+        };
+        let got_kind = legend.get(t.ty as usize).cloned().unwrap_or_default();
+        match marks.iter().find(|m| m.0 == s && m.1 == e) {
+            None => {
+                let what = if marks.iter().any(|m| m.0 < e && s < m.1) { "part of an identifier" } else { "a local, label, keyword or type name" };
+                out.push(("roles-unexpected-token".into(), format!("{got_kind} token on {what}"), format!("a {got_kind} token covers {:?} at {s}..{e}, which is {what}", &text[s..e])));
+            }
+            Some(m) => {
+                seen.insert(m.0);
+                if m.2 != '?' && kind_name(m.2) != got_kind {
+                    out.push(("roles-wrong-kind".into(), format!("{} tagged {got_kind}", kind_name(m.2)), format!("{:?} at {s}..{e} is a {} by construction but tagged {got_kind}", &text[s..e], kind_name(m.2))));
+                }
+            }
+        }
+    }
+    for m in marks.iter().filter(|m| m.2 != '?' && !seen.contains(&m.0)) {
+        out.push(("roles-missing-token".into(), format!("{} without token", kind_name(m.2)), format!("{:?} at {}..{} is a {} by construction but carries no token", &text[m.0..m.1], m.0, m.1, kind_name(m.2))));
+    }
+    out
+}
+
+fn roles_layer(rep: &mut Report) {
+    let progs = role_programs();
+    let res: Vec<Vec<Violation>> = progs
+        .par_iter()
+        .map(|(name, tpl)| {
+            eval_role_program(name, tpl)
+                .into_iter()
+                .map(|(class, what, detail)| {
+                    let parts: Vec<&str> = name.split('|').collect();
+                    Violation { class, key: format!("roles|{what}|{}|{}|{}", parts[0], parts[1], parts[2]), witness: json!({"role_program": name}), detail: format!("[{name}] {}: {detail}", strip_marks(tpl).0.trim().replace('\n', " / ")) }
+                })
+                .collect()
+        })
+        .collect();
+    let mut l = Layer { name: "roles-by-construction".into(), exhaustive: true, ..Default::default() };
+    for v in res {
+        l.states += 1;
+        l.executions += 1;
+        for x in v {
+            rep.violation(x);
+        }
+    }
+    l.transitions = progs.iter().map(|p| strip_marks(&p.1).1.len() as u64).sum();
+    l.bound = format!("{} two-module programs through the real router (semanticTokens/full), roles known by construction: a record-typed local named like the imported module `m` or not x 5 binder kinds (annotated parameter, let, case clause, lambda parameter, use binder) x 5-7 uses (field access, alone, twice, argument of a local / module function, next to a module constant) x on a line starting with a multi-byte string or not; the stream must tag every module / function use, and nothing that is a local, label, keyword or type name", progs.len());
+    rep.layer(l);
+}
+
 pub fn run(tier: Tier) -> i32 {
     let mut rep = Report::new("C19", tier);
     encoder_layer(&mut rep, tier);
     e2e_layer(&mut rep);
+    roles_layer(&mut rep);
     rep.rule = "encoder: documents and highlight lists enumerated exhaustively; non-trivial = documents with >= 2 identifier runs and a multi-byte character; end-to-end: token classes checked".into();
     rep.sample(json!({"text": "a😀a\néa", "highlights": [[0, 1, "Function"], [5, 6, "Module"]]}));
     rep.assumptions = vec!["the end-to-end classification uses the analysis' own go-to-definition/hover answers (relational oracle)".into()];
@@ -375,6 +518,10 @@ pub fn replay(w: &Value) -> Vec<String> {
             })
             .collect();
         return encode_and_check(text, &hls).into_iter().map(|(c, d)| format!("{c}: {d}")).collect();
+    }
+    if let Some(name) = w["role_program"].as_str() {
+        let Some((_, tpl)) = role_programs().into_iter().find(|p| p.0 == name) else { return vec!["unknown role program".into()] };
+        return eval_role_program(name, &tpl).into_iter().map(|(c, _, d)| format!("{c}: {d}")).collect();
     }
     let mut rep = Report::new("C19", Tier::Quick);
     e2e_layer(&mut rep);
